@@ -85,9 +85,11 @@ theorem primCall_logs (cfg : Cfg) (side : Side) (c : Call) (P : Event → Prop)
   unfold primCall
   by_cases hg : isGhost c = true
   · simp only [hg, if_true]
-    unfold execCall
-    cases hcall : (cfg.side side).call w.fs c with
-    | mk m' r => exact ⟨[], by simp, by simp⟩
+    split
+    · exact ⟨[], by simp, by simp⟩
+    · unfold execCall
+      cases hcall : (cfg.side side).call w.fs c with
+      | mk m' r => exact ⟨[], by simp, by simp⟩
   · simp only [hg]
     obtain ⟨ev, htr, hsig, hmut⟩ := account_trace ⟨side, callMethod c, callArgs c⟩ (callMutating c) w
     have hPev : P ev := by
